@@ -68,4 +68,28 @@ def gen():
         raise F.FactError("read_record no longer pushes every parsed record")
     out.append('Definition csv_reader_options : string := "%s".\n' % ";".join(opts))
     out.append("Definition every_record_is_a_row : bool := true.\n")
+    # ---- the dictionary half of LatticeBuilder::build_lattice (Model/DictCands.v)
+    st = F.strip_comments(F.src("sudachi/src/analysis/stateful_tokenizer.rs"))
+    m = re.search(r"impl<'a>\s*LatticeBuilder<'a>\s*\{(.*)", st, flags=re.S)
+    if not m:
+        raise F.FactError("impl LatticeBuilder not found")
+    bl = _norm(F.fn_body(m.group(1), "build_lattice", "stateful_tokenizer.rs"))
+    want = [
+        "letinput_bytes=self.input.current().as_bytes();",
+        "for(ch_off,&byte_off)inself.input.curr_byte_offsets().iter().enumerate(){if!self.lattice.has_previous_node(ch_off){continue;}",
+        "foreinself.lexicon.lookup(input_bytes,byte_off){if(e.end<input_bytes.len())&&!self.input.can_bow(e.end){continue;}",
+        "let(left_id,right_id,cost)=self.lexicon.get_word_param(e.word_id);letend_c=self.input.ch_idx(e.end);"
+        "letnode=Node::new(ch_offasu16,end_casu16,left_idasu16,right_idasu16,cost,e.word_id,);",
+        "self.lattice.insert(node,self.matrix);",
+    ]
+    for w in want:
+        if w not in bl:
+            raise F.FactError("build_lattice no longer makes its dictionary nodes as `lookup at byte_off; skip if end < len && !can_bow(end); Node::new(ch_off, ch_idx(end), params)`: missing %s" % w[:70])
+    ib = F.strip_comments(F.src("sudachi/src/input_text/buffer/mod.rs"))
+    if _norm(F.fn_body(ib, "ch_idx", "buffer/mod.rs")).replace("debug_assert_eq!(self.state,BufferState::RO);", "") != "self.mod_b2c[idx]":
+        raise F.FactError("InputBuffer::ch_idx is no longer mod_b2c[idx]")
+    cb = _norm(F.fn_body(ib, "curr_byte_offsets", "buffer/mod.rs")).replace("debug_assert_eq!(self.state,BufferState::RO);", "")
+    if cb != "letlen=self.mod_c2b.len();&self.mod_c2b[0..len-1]":
+        raise F.FactError("InputBuffer::curr_byte_offsets is no longer mod_c2b without its sentinel")
+    out.append('Definition lattice_lookup_shape : string := "lookup(mod_c2b[ch_off]);skip(end<len&&!can_bow(end));node(ch_off,mod_b2c[end])".\n')
     return "".join(out)
